@@ -144,6 +144,22 @@ def setCell (s : State) (c : Nat) (t : T) : State :=
 
 def root (s : State) (o : Obj) : T := s.cellData o.cell
 
+/-- the nested collections directly below a root container -/
+def kidsOf : T → List T
+  | .leaf _ => []
+  | .list _ xs => containers xs
+  | .dict _ kvs => containers (kvs.map (·.2))
+
+/-- Nested collections are objects: when a root container is rebuilt around the same children
+(`self._data = type(self._data)(self._data)`), the children are shared between the old and the new
+container.  Trees cannot share, so after an in-place change of cell `c` the copies of its
+children (same identity) in every other cell are brought up to date. -/
+def syncFrom (s : State) (c : Nat) : State :=
+  let kids := kidsOf (s.cellData c)
+  { s with cells := s.cells.map (fun p =>
+      if p.1 = c then p
+      else (p.1, kids.foldl (fun t k => match Tr.id? k with | some i => Tr.replace i k t | none => t) p.2)) }
+
 def setObj (s : State) (oi : Nat) (o : Obj) : State := { s with objs := s.objs.set oi o }
 
 def isBuffered (s : State) (o : Obj) : Bool := o.buffered > 0 || s.ctx > 0
@@ -166,7 +182,7 @@ end State
 /-- `self._update(data)` on root object `oi` (in place, on its current cell) -/
 def mergeInto (s : State) (oi : Nat) (o : Obj) (d : J) : State × Option Err :=
   let r := updNode s.fam (s.root o) d s.next
-  (((s.setCell o.cell r.val).own oi s.next r.next).addDetached oi r.det, r.err)
+  (((((s.setCell o.cell r.val).syncFrom o.cell).own oi s.next r.next)).addDetached oi r.det, r.err)
 
 def loadFromResource (s : State) (o : Obj) : Option J := s.store o.res
 
@@ -415,7 +431,7 @@ def handleNode (s : State) : Handle → Option T
 def putNode (s : State) (h : Handle) (new : T) : State :=
   match h with
   | .root o => match s.objs[o]? with
-    | some ob => s.setCell ob.cell new
+    | some ob => (s.setCell ob.cell new).syncFrom ob.cell
     | none => s
   | .node id => replaceNode s id new
 
